@@ -85,6 +85,11 @@ fn run_one(family: &str, seed: u64, tiny: bool, focus: &str, base_seed: u64, ind
 
 fn main() {
     let args: Vec<String> = std::env::args().collect();
+    if args.len() == 5 && args[1] == "Kprobe" {
+        watchdog::install_panic_hook();
+        fam_k::pool_probe_child(args[2].parse().unwrap(), args[3].parse().unwrap(), args[4] == "1");
+        return;
+    }
     if args.len() < 8 {
         eprintln!("usage: rsv <family> <seed> <start> <count> <tiny|normal> <focus-prop> <outdir> [budget_ms]");
         std::process::exit(2);
